@@ -4,6 +4,8 @@
   hence the same amount and surcharge, whatever the order of the rows.
 -/
 import GoblVerif.Proofs.CalcGroups
+import Mathlib.Algebra.BigOperators.Group.Finset.Piecewise
+import Mathlib.Algebra.BigOperators.Group.Finset.Basic
 
 namespace GoblVerif.Calc
 
@@ -323,5 +325,150 @@ theorem group_view_perm (r : Rule) (c : ℕ) (cat : String) (k : Key) (rows rows
       simp only [h1, h2, Option.map_some, Option.some.injEq, Prod.mk.injEq] at hinfo
       simp only [Option.map_some, Option.some.injEq]
       exact view_determined rt rt' c ((key_of _ rt h1).trans (key_of _ rt' h2).symm) hinfo.1 hinfo.2
+
+end GoblVerif.Calc
+
+namespace GoblVerif.Calc
+
+/-! ### category amounts -/
+
+/-- a list sum split by key: for any finite set of keys containing the keys of the list -/
+theorem sum_fiberwise {α κ : Type} [DecidableEq κ] (l : List α) (key : α → κ) (g : α → ℚ) (K : Finset κ)
+    (hK : ∀ x ∈ l, key x ∈ K) :
+    (l.map g).sum = K.sum (fun k => ((l.filter (fun x => key x = k)).map g).sum) := by
+  induction l with
+  | nil => simp
+  | cons a l ih =>
+    have ih' := ih (fun x hx => hK x (by simp [hx]))
+    have ha : key a ∈ K := hK a (by simp)
+    simp only [List.map_cons, List.sum_cons, ih']
+    have : ∀ k, (((a :: l).filter (fun x => key x = k)).map g).sum =
+        (if key a = k then g a else 0) + ((l.filter (fun x => key x = k)).map g).sum := by
+      intro k
+      by_cases h : key a = k <;> simp [List.filter_cons, h]
+    simp only [this, Finset.sum_add_distrib]
+    rw [Finset.sum_ite_eq K (key a) (fun _ => g a), if_pos ha]
+
+/-- with pairwise different keys a key selects at most one element -/
+theorem filter_sum_find {α κ : Type} [DecidableEq κ] (l : List α) (key : α → κ) (g : α → ℚ) (k : κ)
+    (hd : l.Pairwise (fun a b => key a ≠ key b)) :
+    ((l.filter (fun x => key x = k)).map g).sum = ((l.find? (fun x => key x = k)).map g).getD 0 := by
+  induction l with
+  | nil => rfl
+  | cons a l ih =>
+    have hd' := (List.pairwise_cons.mp hd).2
+    have hhead := (List.pairwise_cons.mp hd).1
+    by_cases h : key a = k
+    · have hnone : l.filter (fun x => key x = k) = [] := by
+        rw [List.filter_eq_nil_iff]
+        intro x hx
+        have := hhead x hx
+        simp only [decide_eq_true_eq]
+        intro hxk
+        exact this (h.trans hxk.symm)
+      simp [List.filter_cons, List.find?_cons, h, hnone]
+    · simp only [List.filter_cons, List.find?_cons, h, decide_false, Bool.false_eq_true, if_false]
+      exact ih hd'
+
+theorem comboKey_keyCombo (rt : RateTotal) : comboKey (keyCombo rt) = rtKey rt := by
+  unfold comboKey keyCombo rtKey
+  simp only [Prod.mk.injEq, true_and]
+  cases rt.percent with
+  | none => rfl
+  | some p => simp [Option.map_map, Function.comp_def]
+
+theorem distinct_keys (rts : List RateTotal) (h : Distinct rts) :
+    rts.Pairwise (fun a b => rtKey a ≠ rtKey b) := by
+  unfold Distinct at h
+  refine h.imp ?_
+  intro a b hab
+  rw [rtMatches_false_iff, comboKey_keyCombo] at hab
+  exact hab
+
+theorem taxedAmount_rateAmounts (r : Rule) (c : ℕ) (rt : RateTotal) :
+    taxedAmount r c (rateAmounts exactOps rt c) = contrib r c (rateAmounts exactOps rt c).amount := by
+  unfold taxedAmount rateAmounts
+  cases hp : rt.percent with
+  | none =>
+    simp only [hp]
+    cases r <;> simp [contrib, Amount.toRat, Amount.rescaleX]
+  | some p => simp [hp]
+
+/-- the amount of category `cat` as a rational (0 when the summary has no such category) -/
+def catAmountQ (cat : String) (cats : List CatTotal) : ℚ :=
+  ((cats.find? (fun ct => ct.code == cat)).map (fun ct => ct.amount.toRat)).getD 0
+
+theorem catAmountQ_by_key (r : Rule) (c : ℕ) (cat : String) (rows : List Row) (K : Finset Key)
+    (hK : ∀ ct ∈ baseRateTotals exactOps r c rows, ∀ rt ∈ ct.rates, rtKey rt ∈ K) :
+    catAmountQ cat ((baseRateTotals exactOps r c rows).map (catAmounts exactOps r c)) =
+      K.sum (fun k => ((findGroup cat k ((baseRateTotals exactOps r c rows).map (catAmounts exactOps r c))).map
+        (fun rt => contrib r c (groupView rt).2.1)).getD 0) := by
+  unfold catAmountQ findGroup
+  rw [List.find?_map]
+  have hc : ((fun ct : CatTotal => ct.code == cat) ∘ catAmounts exactOps r c) = (fun ct : CatTotal => ct.code == cat) := by
+    funext ct; rfl
+  rw [hc]
+  cases hf : (baseRateTotals exactOps r c rows).find? (fun ct => ct.code == cat) with
+  | none => simp
+  | some ct =>
+    have hmem : ct ∈ baseRateTotals exactOps r c rows := List.mem_of_find?_eq_some hf
+    simp only [Option.map_some, Option.getD_some, Option.bind_some]
+    rw [catAmounts_amount]
+    have hr : (catAmounts exactOps r c ct).rates = ct.rates.map (rateAmounts exactOps · c) := rfl
+    rw [hr]
+    have hK' : ∀ x ∈ ct.rates.map (rateAmounts exactOps · c), rtKey x ∈ K := by
+      intro x hx
+      simp only [List.mem_map] at hx
+      obtain ⟨y, hy, rfl⟩ := hx
+      rw [rtKey_rateAmounts]
+      exact hK ct hmem y hy
+    rw [sum_fiberwise _ rtKey (taxedAmount r c) K hK']
+    apply Finset.sum_congr rfl
+    intro k _
+    have hd : (ct.rates.map (rateAmounts exactOps · c)).Pairwise (fun a b => rtKey a ≠ rtKey b) := by
+      rw [List.pairwise_map]
+      refine (distinct_keys ct.rates (baseRateTotals_distinct r c rows ct hmem)).imp ?_
+      intro a b hab
+      rw [rtKey_rateAmounts, rtKey_rateAmounts]
+      exact hab
+    rw [filter_sum_find _ rtKey (taxedAmount r c) k hd]
+    congr 1
+    cases hfd : (ct.rates.map (rateAmounts exactOps · c)).find? (fun x => decide (rtKey x = k)) with
+    | none => rfl
+    | some rt' =>
+      have hm := List.mem_of_find?_eq_some hfd
+      simp only [List.mem_map] at hm
+      obtain ⟨y, _, rfl⟩ := hm
+      simp only [Option.map_some, taxedAmount_rateAmounts, groupView]
+
+/-- **Reordering the rows changes no category amount.** -/
+theorem catAmountQ_perm (r : Rule) (c : ℕ) (cat : String) (rows rows' : List Row) (h : rows.Perm rows') :
+    catAmountQ cat ((baseRateTotals exactOps r c rows).map (catAmounts exactOps r c)) =
+      catAmountQ cat ((baseRateTotals exactOps r c rows').map (catAmounts exactOps r c)) := by
+  classical
+  let keysOf (rs : List Row) : Finset Key :=
+    ((baseRateTotals exactOps r c rs).flatMap (fun ct => ct.rates.map rtKey)).toFinset
+  have hin : ∀ rs, ∀ ct ∈ baseRateTotals exactOps r c rs, ∀ rt ∈ ct.rates, rtKey rt ∈ keysOf rs := by
+    intro rs ct hct rt hrt
+    simp only [keysOf, List.mem_toFinset, List.mem_flatMap, List.mem_map]
+    exact ⟨ct, hct, rt, hrt, rfl⟩
+  rw [catAmountQ_by_key r c cat rows (keysOf rows ∪ keysOf rows')
+        (fun ct hct rt hrt => Finset.mem_union_left _ (hin rows ct hct rt hrt)),
+      catAmountQ_by_key r c cat rows' (keysOf rows ∪ keysOf rows')
+        (fun ct hct rt hrt => Finset.mem_union_right _ (hin rows' ct hct rt hrt))]
+  apply Finset.sum_congr rfl
+  intro k _
+  have hv := group_view_perm r c cat k rows rows' h
+  cases h1 : findGroup cat k ((baseRateTotals exactOps r c rows).map (catAmounts exactOps r c)) with
+  | none =>
+    cases h2 : findGroup cat k ((baseRateTotals exactOps r c rows').map (catAmounts exactOps r c)) with
+    | none => rfl
+    | some y => simp [h1, h2] at hv
+  | some x =>
+    cases h2 : findGroup cat k ((baseRateTotals exactOps r c rows').map (catAmounts exactOps r c)) with
+    | none => simp [h1, h2] at hv
+    | some y =>
+      simp only [h1, h2, Option.map_some, Option.some.injEq] at hv
+      simp only [Option.map_some, Option.getD_some, hv]
 
 end GoblVerif.Calc
